@@ -288,9 +288,17 @@ func VH_C08R() {
 		fr.Err = vstub.NondetErr()
 	}
 	fr.EarlyErr = vstub.Choose(0, 1) == 1
+	// the reader may also offer ReadByte (as bufio.Reader, bytes.Reader and
+	// bytes.Buffer do): code that looks for io.ByteReader takes another path
+	// (quick tier: for failures in the last four bytes - a failure that is
+	// swallowed earlier is met again by the next read of this persistent fault)
+	var rd interface{ Read(p []byte) (int, error) } = fr
+	if (vThorough || fr.FailAt >= len(enc)-4) && vstub.Choose(0, 1) == 1 {
+		rd = vstub.ByteFragReader{FragReader: fr}
+	}
 	vstub.SetLoopBudget(8*len(enc) + 64)
 	var w REC
-	err := w.DecodeBebop(fr)
+	err := w.DecodeBebop(rd)
 	vstub.Assert("c08.r.err", err != nil)
 	vstub.Reach("c08r")
 }
